@@ -144,4 +144,6 @@ class Attached(Property):
         return modobj
 
     def copy(self):
-        return Attached(self.basecls, self.description, self.mandatory)
+        result = Attached(self.basecls, self.description, self.mandatory)
+        result.name = self.name  # the copy replaces a bare value on a subclass: __set_name__ is not called then
+        return result
